@@ -18,11 +18,12 @@ from vf import xc13_model as M
 
 ID = "C13"
 BUDGET = {"quick": 150, "thorough": 4000}
+SOFT = {"quick": 90.0, "thorough": 1500.0}  # soft deadline per shard (only a cap: the machine may be loaded)
 MIN_KEYS = 30
 REQUIRED = (
     ["judged:quality:mesh", "judged:quality:sketch", "judged:unclamped-bits", "judged:backport:mesh",
      "judged:backport:sketch", "path:rollback", "path:skip-injected", "judged:step-restored:rollback",
-     "judged:step-restored:skip", "judged:never-accepted-clamp-in-place", "moved:clamp", "failpoint:fired"]
+     "judged:step-restored:skip", "judged:never-accepted-clamp-in-place", "moved:clamp", "failpoint:fired", "judged:auto-clamp"]
     + [f"judged:manifold:{t}" for t in M.CLAMP_TYPES]
     + [f"moved:{t}" for t in M.CLAMP_TYPES]
     + [f"judged:link:{t}" for t in M.LINK_TYPES]
@@ -33,14 +34,17 @@ RULE = (
     "jittered (5-20 %) hexahedral assemblies 2x2x1 / 2x2x2 / 2x1x1 / 2x1x2 (any of the 24 numberings, general position, "
     "sizes 0.1 / 1 / 10, optionally mirror-symmetric) and mapped sketches 2x2 / 2x3 / 3x3 / o-grid / 5-fan; 1..5 clamps of "
     "13 kinds (Free, Line +- bounds, Curve on line / circle / linear- / spline-interpolated / analytic, Radial +- bounds, "
-    "Plane, parametric surface +- bounds), 0..2 Translation / Rotation / Symmetry links, 4 methods, 1..3 iterations, "
-    "30 % with an injected degenerate-cell error. non-trivial: >= 1 clamped vertex moved (> 1e-6 size) or a rollback / skip "
+    "Plane, parametric surface +- bounds), 0..2 Translation / Rotation / Symmetry links, 4 methods, 1..3 iterations, 30 % of the "
+    "unlinked sketches through auto_optimize() (interior points clamped to the sketch plane by the library, manual clamps on the boundary), "
+    "30 % with an injected degenerate-cell error, a third of the cases with a second judged optimize() call on the optimised grid. non-trivial: >= 1 clamped vertex moved (> 1e-6 size) or a rollback / skip "
     "path was taken; distinct by (kind, topology, clamp kinds, link kinds, method, iterations, failpoint, paths taken)"
 )
 ASSUMPTIONS = [
     "the quality measure is the library's own (GridBase.quality on a fresh grid before / after): the property is about that measure",
     "quality: after <= max(before, before-with-clamped-vertices-snapped-to-their-clamp) * (1 + 1e-9) + 1e-9; a clamp may "
-    "legitimately snap its vertex by < TOL = 1e-7 (GridBase.add_clamp accepts that distance)",
+    "legitimately snap its vertex by < TOL = 1e-7 (GridBase.add_clamp accepts that distance); the state the library itself "
+    "starts its first clamp step from counts as a third reference when it equals the snapped state within 1e-9 * scale "
+    "(1e-6 * scale for followers of rotation links)",
     "on-manifold: distance <= 1e-7 * size (1e-6 * size for the spline-interpolated curve, judged against an independently "
     "rebuilt chord-length cubic spline by dense sampling + golden section); bounds: parameter recovered from the position, "
     "slack 1e-9 * max(1, size); angles compared modulo a full turn",
@@ -74,6 +78,12 @@ def fixed_cases(tier):
         for i, m in enumerate(M.METHODS):
             out.append(M.gen(rng, {"kind": "mesh" if i % 2 else "sketch", "ctypes": ["free", "line", "plane"], "ltype": None,
                                    "method": m, "failpoint": True}))
+        for i in range(3):
+            out.append(M.gen(rng, {"kind": "sketch", "ctypes": ["line"] if i else [], "ltype": None, "auto": True,
+                                   "method": M.METHODS[i], "failpoint": i == 2}))
+        for i in range(2):
+            out.append(M.gen(rng, {"kind": ["mesh", "sketch"][i], "ctypes": ["free", "line", "plane"], "ltype": "translation",
+                                   "calls": 2, "method": M.METHODS[3 - i], "failpoint": False}))
         _FIXED = out
     return _FIXED
 
@@ -163,7 +173,10 @@ class Monitor:
                 return None
 
         def step(self_, clamp, method, *a, **kw):
-            rec = {"v": mon.clamp_vertex.get(id(clamp)), "before": np.array(self_.grid.points, dtype=float, copy=True),
+            v = mon.clamp_vertex.get(id(clamp))
+            if v is None:  # a clamp the library created itself (auto_optimize): find its junction
+                v = next((j.index for j in self_.grid.junctions if j.clamp is clamp), None)
+            rec = {"v": v, "before": np.array(self_.grid.points, dtype=float, copy=True),
                    "q0": q_or_none(self_.grid), "rolled": False, "skipped": False, "index": len(mon.steps), "fired": False}
             mon.current = rec
             try:
@@ -223,6 +236,42 @@ class Monitor:
                 CellBase.quality = o_q
 
 
+def _repo_frame(err):
+    """'file.py:function' of the innermost library frame of the traceback, None if the library is not involved"""
+    import os
+    import traceback
+
+    from vf import core
+
+    tb = traceback.extract_tb(err.__traceback__)
+    if tb and os.path.abspath(tb[-1].filename).startswith(os.path.join(core.ROOT, "vf")):
+        return None
+    for fr in reversed(tb):
+        if core.REPO_SRC in os.path.abspath(fr.filename):
+            return f"{os.path.basename(fr.filename)}:{fr.name}"
+    return None
+
+
+def _at_upper_bound(spec, x, size):
+    """is the vertex within 2e-6 (the optimizer's finite-difference step is 1e-6) of the upper end of its bounds?"""
+    import copy
+
+    if not spec.get("bounds") and spec["type"] not in ("line", "curve-linear", "curve-spline"):
+        return False
+    if spec["type"] in ("curve-linear", "curve-spline"):
+        return geom.dist(x, spec["points"][-1]) < 1e-5 * size
+    probe = copy.deepcopy(spec)
+    b = probe.get("bounds")
+    if spec["type"] == "line":
+        b = [0.0, geom.dist(spec["p1"], spec["p2"])]
+        probe["bounds"] = b
+    if spec["type"].startswith("surface"):
+        probe["bounds"] = [[lo, hi - 2e-6] for lo, hi in b]
+    else:
+        probe["bounds"] = [b[0], b[1] - 2e-6]
+    return M.manifold_check(probe, x)[1] > 0 and M.manifold_check(dict(probe, bounds=b), x)[1] <= 1e-9
+
+
 def _fmt(a):
     return np.array2string(np.asarray(a, dtype=float), precision=12, separator=",").replace("\n", "")
 
@@ -280,11 +329,10 @@ def run_case(ctx, case):
         optimizer = MeshOptimizer(mesh, report=False) if kind == "mesh" else SketchOptimizer(sketch, report=False)
 
     # ---- clamps and links -----------------------------------------------------------------------------------
-    clamp_of, clamp_init, clamp_vertex = {}, {}, {}
+    clamp_of, clamp_obj, clamp_vertex = {}, {}, {}
     for spec in case["clamps"]:
         v = spec["v"]
         clamp = build_clamp(spec, before[v])
-        init = np.array(clamp.position, dtype=float, copy=True)
         try:
             optimizer.add_clamp(clamp)
         except NoJunctionError:
@@ -292,7 +340,7 @@ def run_case(ctx, case):
             # vertex stays unclamped (how exactly a clamp finds its parameters is C17's subject)
             ctx.count(f"clamp-not-accepted:{spec['type']}")
             continue
-        clamp_of[v], clamp_init[v], clamp_vertex[id(clamp)] = spec, init, vmap[v]
+        clamp_of[v], clamp_obj[v], clamp_vertex[id(clamp)] = spec, clamp, vmap[v]
     followers = {}  # follower -> (link spec, leader)
     for link in case["links"]:
         a, b = link["leader"], link["follower"]
@@ -310,187 +358,248 @@ def run_case(ctx, case):
             return
         if a in clamp_of:
             followers[b] = (link, a)
-    if not clamp_of:
+    if not clamp_of and not case.get("auto"):
         ctx.count("skipped:no-clamp-accepted")
         return
-    fp = case.get("failpoint")
-    if fp and fp["step"] >= len(clamp_of) * case["iterations"]:
-        fp = dict(fp, step=fp["step"] % len(clamp_of))
+    orig = before.copy()
+    ncalls = 1 if case.get("auto") else int(case.get("calls", 1))
 
-    # ---- the independent "snapped" start state: clamped vertices where their clamp put them, followers related -----
-    s0 = before.copy()
-    for v, p in clamp_init.items():
-        s0[v] = p
-    for b, (link, a) in followers.items():
-        s0[b] = M.link_expected(link, before[a], before[b], s0[a])
-    snap = float(np.max(np.linalg.norm(s0 - before, axis=1)))
-    try:
-        with contextlib.redirect_stdout(sink):
-            q_s0 = float(grid_cls(np.array(s0[np.argsort(vmap)] if kind == "mesh" else s0), addressing).quality)
-    except ValueError:
-        q_s0 = q_before
-
-    # ---- run ------------------------------------------------------------------------------------------------------
-    mon = Monitor(clamp_vertex, fp)
-    raised = None
-    with mon.installed(), contextlib.redirect_stdout(sink):
+    def one_call(call, last):
+        """one judged execution of optimize(); every clause is relative to the state right before this call"""
+        before = current()
         try:
-            optimizer.optimize(max_iterations=case["iterations"], tolerance=case["tolerance"], method=case["method"])
-        except ValueError as err:
-            if "Degenerate Cell" not in str(err):
-                raise
-            raised = err
-    ctx.evaluated()
-    ctx.count(f"method:{case['method']}")
-    ctx.count(f"kind:{kind}")
-    after = current()
-    inv = np.argsort(vmap)  # mesh vertex index -> node
-    gridpts = np.array(optimizer.grid.points, dtype=float)
-    gridpts = gridpts[vmap] if kind == "mesh" else gridpts
-    for s in mon.steps:
-        if kind == "mesh":
-            s["before"], s["after"] = s["before"][vmap], s["after"][vmap]
-        s["node"] = int(inv[s["v"]]) if s["v"] is not None else None
+            with contextlib.redirect_stdout(sink):
+                q_before = float(grid_cls(np.array(before[np.argsort(vmap)] if kind == "mesh" else before), addressing).quality)
+        except ValueError:
+            ctx.count("skipped:degenerate-grid-before-later-call")
+            return False
+        clamp_init = {v: np.array(c.position, dtype=float, copy=True) for v, c in clamp_obj.items()}
+        fp = case.get("failpoint") if last else None
+        nauto = len(set(range(nv)) - M.quad_boundary(case["cells"])) if case.get("auto") else 0
+        if fp and fp["step"] >= (len(clamp_of) + nauto) * case["iterations"]:
+            fp = dict(fp, step=fp["step"] % (len(clamp_of) + nauto))
 
-    n_roll = sum(1 for s in mon.steps if s["rolled"])
-    n_skip = sum(1 for s in mon.steps if s["skipped"])
-    n_skip_inj = sum(1 for s in mon.steps if s["skipped"] and s["fired"])
-    ctx.count("steps", len(mon.steps))
-    ctx.count("path:rollback", n_roll)
-    ctx.count("path:skip-injected", n_skip_inj)
-    ctx.count("path:skip-natural", n_skip - n_skip_inj)
-    ctx.count("path:accepted", len(mon.steps) - n_roll - n_skip)
-    if fp:
-        ctx.count("failpoint:fired" if mon.fired else "failpoint:not-reached")
-    moved = {v: float(np.linalg.norm(after[v] - before[v])) for v in clamp_of}
-    any_moved = any(d > 1e-6 * size for d in moved.values())
-    ltypes = sorted({l["type"] for l in case["links"]})
-    ctag = ",".join(sorted({c["type"] for c in clamp_of.values()}))
-    desc = f"{kind} {case['topo']} size={size} method={case['method']} iterations={case['iterations']} clamps=[{ctag}] links={ltypes}"
-    ctx.key([kind, case["topo"], sorted(c["type"] for c in clamp_of.values()), sorted(l["type"] for l in case["links"]),
-             case["method"], case["iterations"], bool(fp), any_moved, n_roll > 0, n_skip > 0],
-            nontrivial=any_moved or n_roll > 0 or n_skip > 0)
-    ctx.sample({"kind": kind, "topo": case["topo"], "size": size, "method": case["method"], "iterations": case["iterations"],
-                "clamps": [{k: c[k] for k in c} for c in case["clamps"]][:3], "links": case["links"], "failpoint": fp,
-                "observed": {"quality_before": q_before, "steps": len(mon.steps), "rollbacks": n_roll, "skips": n_skip,
-                             "moved": {str(v): d for v, d in moved.items()}}})
+        # ---- the independent "snapped" start state: clamped vertices where their clamp put them, followers related -----
+        s0 = before.copy()
+        for v, p in clamp_init.items():
+            s0[v] = p
+        for b, (link, a) in followers.items():
+            s0[b] = M.link_expected(link, orig[a], orig[b], s0[a])
+        snap = float(np.max(np.linalg.norm(s0 - before, axis=1)))
+        try:
+            with contextlib.redirect_stdout(sink):
+                q_s0 = float(grid_cls(np.array(s0[np.argsort(vmap)] if kind == "mesh" else s0), addressing).quality)
+        except ValueError:
+            q_s0 = q_before
 
-    if raised is not None:
-        # a degenerate-cell error left optimize(): nothing may have been applied to the mesh / sketch
-        ctx.count("optimize-raised-degenerate")
-        if not np.array_equal(after, before):
-            ctx.violation(f"half-applied-after-escaping-error:{kind}", f"{desc}: optimize() raised {raised!r} and the "
-                          f"{kind} was left modified")
-        return
+        # ---- run ------------------------------------------------------------------------------------------------------
+        mon = Monitor(clamp_vertex, fp)
+        raised = None
+        with mon.installed(), contextlib.redirect_stdout(sink):
+            try:
+                run = optimizer.auto_optimize if case.get("auto") else optimizer.optimize
+                run(max_iterations=case["iterations"], tolerance=case["tolerance"], method=case["method"])
+            except Exception as err:  # noqa: BLE001
+                where = _repo_frame(err)
+                if where is None:
+                    raise  # not from the library: a harness error, reported as such by core
+                raised = err
+        ctx.evaluated()
+        auto_vs = set()
+        if case.get("auto"):
+            # clamps the library added itself: a PlaneClamp through the point, normal = the sketch's normal (docstring of
+            # auto_optimize). Which points got one is observed; that they are the interior ones is counted, not judged.
+            ctx.count("auto_optimize")
+            normal = M.quad_normal(before, case["cells"])
+            for j in optimizer.grid.junctions:
+                if j.clamp is not None and j.index not in clamp_of:
+                    auto_vs.add(j.index)
+                    clamp_of[j.index] = {"v": j.index, "type": "plane", "point": [float(x) for x in before[j.index]],
+                                         "normal": [float(x) for x in normal], "auto": True}
+            interior = set(range(nv)) - M.quad_boundary(case["cells"])
+            ctx.count("auto-clamped-set==interior" if auto_vs == interior - set(c["v"] for c in case["clamps"]) else
+                      "auto-clamped-set!=interior")
+            ctx.count("judged:auto-clamp", len(auto_vs))
+        ctx.count(f"method:{case['method']}")
+        ctx.count(f"kind:{kind}")
+        after = current()
+        inv = np.argsort(vmap)  # mesh vertex index -> node
+        gridpts = np.array(optimizer.grid.points, dtype=float)
+        gridpts = gridpts[vmap] if kind == "mesh" else gridpts
+        for s in mon.steps:
+            if kind == "mesh":
+                s["before"], s["after"] = s["before"][vmap], s["after"][vmap]
+            s["node"] = int(inv[s["v"]]) if s["v"] is not None else None
 
-    # ---- (1) mesh vertices / sketch points equal the optimizer's final positions ---------------------------------------
-    ctx.count(f"judged:backport:{kind}")
-    if not np.array_equal(after, gridpts):
-        bad = [int(i) for i in np.nonzero(np.any(after != gridpts, axis=1))[0]]
-        ctx.violation(f"backport-mismatch:{kind}", f"{desc}: after optimize() {kind} points {bad[:4]} are {_fmt(after[bad[:2]])} "
-                      f"but optimizer.grid.points has {_fmt(gridpts[bad[:2]])} (indices in {'mesh.vertices' if kind == 'mesh' else 'sketch'} "
-                      f"order: {[vmap[i] for i in bad[:4]]})")
-    if kind == "sketch":
-        for fi, quad in enumerate(case["cells"]):
-            fpts = np.array(sketch.faces[fi].point_array, dtype=float)
-            if not np.array_equal(fpts, np.array(optimizer.grid.points)[quad]):
-                ctx.violation("backport-mismatch:sketch-face", f"{desc}: face {fi} {quad} holds {_fmt(fpts)} but the optimizer's "
-                              f"points are {_fmt(np.array(optimizer.grid.points)[quad])}")
+        n_roll = sum(1 for s in mon.steps if s["rolled"])
+        n_skip = sum(1 for s in mon.steps if s["skipped"])
+        n_skip_inj = sum(1 for s in mon.steps if s["skipped"] and s["fired"])
+        ctx.count("steps", len(mon.steps))
+        ctx.count("path:rollback", n_roll)
+        ctx.count("path:skip-injected", n_skip_inj)
+        ctx.count("path:skip-natural", n_skip - n_skip_inj)
+        ctx.count("path:accepted", len(mon.steps) - n_roll - n_skip)
+        if fp:
+            ctx.count("failpoint:fired" if mon.fired else "failpoint:not-reached")
+        moved = {v: float(np.linalg.norm(after[v] - before[v])) for v in clamp_of}
+        any_moved = any(d > 1e-6 * size for d in moved.values())
+        ltypes = sorted({l["type"] for l in case["links"]})
+        ctag = ",".join(sorted({c["type"] + ("(auto)" if c.get("auto") else "") for c in clamp_of.values()}))
+        desc = f"{kind} {case['topo']} call={call + 1}/{ncalls} size={size} method={case['method']} iterations={case['iterations']} clamps=[{ctag}] links={ltypes}"
+        ctx.key([kind, case["topo"], sorted(c["type"] for c in clamp_of.values()), sorted(l["type"] for l in case["links"]),
+                 case["method"], case["iterations"], bool(fp), bool(case.get("auto")), call, any_moved, n_roll > 0, n_skip > 0],
+                nontrivial=any_moved or n_roll > 0 or n_skip > 0)
+        ctx.sample({"kind": kind, "topo": case["topo"], "size": size, "method": case["method"], "iterations": case["iterations"],
+                    "clamps": [{k: c[k] for k in c} for c in case["clamps"]][:3], "links": case["links"], "failpoint": fp,
+                    "observed": {"quality_before": q_before, "steps": len(mon.steps), "rollbacks": n_roll, "skips": n_skip,
+                                 "moved": {str(v): d for v, d in moved.items()}}})
+
+        if raised is not None:
+            if isinstance(raised, ValueError) and "Degenerate Cell" in str(raised):
+                # a degenerate-cell error left optimize() (met outside a clamp step): nothing may have been applied
+                ctx.count("optimize-raised-degenerate")
+                if not np.array_equal(after, before):
+                    ctx.violation(f"half-applied-after-escaping-error:{kind}", f"{desc}: optimize() raised {raised!r} and the "
+                                  f"{kind} was left modified")
+                return False
+            # any other exception: the run was aborted on an input inside the domain; the optimizer's positions and the
+            # mesh / sketch are left apart (nothing is backported) - "afterwards mesh vertices equal the optimizer's positions"
+            ctx.count("optimize-aborted")
+            at_bound = sorted({clamp_of[s["node"]]["type"] for s in mon.steps if s["node"] in clamp_of
+                               and M.manifold_check(clamp_of[s["node"]], s["after"][s["node"]])[1] > -1 and
+                               _at_upper_bound(clamp_of[s["node"]], s["after"][s["node"]], size)})
+            apart = float(np.max(np.linalg.norm(after - gridpts, axis=1)))
+            ctx.violation(
+                f"optimize-aborted:{type(raised).__name__}@{where}",
+                f"{desc}: optimize() raised {raised!r} after {len(mon.steps)} clamp steps; {kind} points and optimizer.grid.points are "
+                f"left {apart:.3e} apart (nothing backported). Clamps sitting on their upper parameter bound at that moment: {at_bound}. "
+                f"clamps: {[c for c in case['clamps'] if c['type'] in at_bound][:2]}")
+            return False
+
+        # ---- (1) mesh vertices / sketch points equal the optimizer's final positions ---------------------------------------
+        ctx.count(f"judged:backport:{kind}")
+        if not np.array_equal(after, gridpts):
+            bad = [int(i) for i in np.nonzero(np.any(after != gridpts, axis=1))[0]]
+            ctx.violation(f"backport-mismatch:{kind}", f"{desc}: after optimize() {kind} points {bad[:4]} are {_fmt(after[bad[:2]])} "
+                          f"but optimizer.grid.points has {_fmt(gridpts[bad[:2]])} (indices in {'mesh.vertices' if kind == 'mesh' else 'sketch'} "
+                          f"order: {[vmap[i] for i in bad[:4]]})")
+        if kind == "sketch":
+            for fi, quad in enumerate(case["cells"]):
+                fpts = np.array(sketch.faces[fi].point_array, dtype=float)
+                if not np.array_equal(fpts, np.array(optimizer.grid.points)[quad]):
+                    ctx.violation("backport-mismatch:sketch-face", f"{desc}: face {fi} {quad} holds {_fmt(fpts)} but the optimizer's "
+                                  f"points are {_fmt(np.array(optimizer.grid.points)[quad])}")
+                    break
+
+        # ---- (2) unclamped, unlinked vertices do not move at all -------------------------------------------------------------
+        fixed = [v for v in range(nv) if v not in clamp_of and v not in followers]
+        ctx.count("judged:unclamped-bits", len(fixed))
+        for v in fixed:
+            if not np.array_equal(after[v], before[v]):
+                role = "inert-link-follower" if any(l["follower"] == v for l in case["links"]) else (
+                    "clamp-not-accepted" if any(c["v"] == v for c in case["clamps"]) else "plain")
+                ctx.violation(f"unclamped-vertex-moved:{kind}:{role}", f"{desc}: vertex {v} has no clamp and no active link but moved from "
+                              f"{_fmt(before[v])} to {_fmt(after[v])} (|d| = {np.linalg.norm(after[v] - before[v]):.3e})")
                 break
 
-    # ---- (2) unclamped, unlinked vertices do not move at all -------------------------------------------------------------
-    fixed = [v for v in range(nv) if v not in clamp_of and v not in followers]
-    ctx.count("judged:unclamped-bits", len(fixed))
-    for v in fixed:
-        if not np.array_equal(after[v], before[v]):
-            role = "inert-link-follower" if any(l["follower"] == v for l in case["links"]) else (
-                "clamp-not-accepted" if any(c["v"] == v for c in case["clamps"]) else "plain")
-            ctx.violation(f"unclamped-vertex-moved:{kind}:{role}", f"{desc}: vertex {v} has no clamp and no active link but moved from "
-                          f"{_fmt(before[v])} to {_fmt(after[v])} (|d| = {np.linalg.norm(after[v] - before[v]):.3e})")
+        # ---- (3) quality no worse ----------------------------------------------------------------------------------------
+        try:
+            with contextlib.redirect_stdout(sink):
+                q_after = float(grid_cls(np.array(after[inv] if kind == "mesh" else after), addressing).quality)
+        except ValueError as err:
+            q_after = None
+            ctx.violation(f"degenerate-after:{kind}", f"{desc}: quality before {q_before}, after optimize() the grid is degenerate: {err}")
+        if q_after is not None:
+            ctx.count(f"judged:quality:{kind}")
+            ref = max(q_before, q_s0)
+            # the library's own start state (first clamp step) is an equally good reference as long as it is the snapped
+            # start state up to numerical noise (a rotation link places its follower through arccos: ~2e-8 rad near 0)
+            if mon.steps and mon.steps[0]["q0"] is not None:
+                p1 = mon.steps[0]["before"]
+                noise = np.array([(1e-6 if (v in followers and followers[v][0]["type"] == "rotation") else 1e-9) * scale
+                                  + (1.5e-7 if v in auto_vs else 0.0) for v in range(nv)])
+                if np.all(np.linalg.norm(p1 - s0, axis=1) <= noise):
+                    ref = max(ref, mon.steps[0]["q0"])
+                    ctx.count("quality-reference:library-start-state-agrees")
+                else:
+                    ctx.count("quality-reference:library-start-state-differs")
+            if q_after > ref * (1 + 1e-9) + 1e-9:
+                worst = max((s for s in mon.steps if s["q0"] is not None and s["q1"] is not None), key=lambda s: s["q1"] - s["q0"],
+                            default=None)
+                ctx.violation(
+                    f"quality-worse:{kind}:links={'+'.join(ltypes) or 'none'}",
+                    f"{desc}: summed quality {q_before!r} before (with clamped vertices snapped by <= {snap:.1e}: {q_s0!r}), {q_after!r} "
+                    f"after optimize(); steps: {[(s['node'], 'skip' if s['skipped'] else 'rollback' if s['rolled'] else 'accept', s['q0'], s['q1']) for s in mon.steps][:8]}"
+                    + (f"; worst step: clamp at vertex {worst['node']} {worst['q0']} -> {worst['q1']}" if worst else ""))
+            if q_after < q_before:
+                ctx.count("improved")
+
+        # ---- (4) clamped vertices on their manifold, inside their bounds -----------------------------------------------------
+        for v, spec in clamp_of.items():
+            t = spec["type"]
+            dist, exc, cls = M.manifold_check(spec, after[v])
+            ctx.count(f"judged:manifold:{t}")
+            if moved[v] > 1e-6 * size:
+                ctx.count(f"moved:{t}")
+                ctx.count("moved:clamp")
+            tol = (1e-6 if cls == "sampled" else 1e-7) * size
+            if dist > tol:
+                ctx.violation(f"off-manifold:{t}", f"{desc}: vertex {v} clamped by {spec} started at {_fmt(before[v])} and ended at "
+                              f"{_fmt(after[v])}, {dist:.3e} off its manifold (tolerance {tol:.1e})")
+            elif exc > 1e-9 * max(1.0, size):
+                ctx.violation(f"out-of-bounds:{t}", f"{desc}: vertex {v} clamped by {spec} ended at {_fmt(after[v])}, outside the bounds "
+                              f"by {exc:.3e} (parameter units)")
+
+        # ---- (5) followers keep their relation ---------------------------------------------------------------------------------
+        for b, (link, a) in followers.items():
+            want = M.link_expected(link, orig[a], orig[b], after[a])
+            err = float(np.linalg.norm(after[b] - want))
+            ctx.count(f"judged:link:{link['type']}")
+            if moved[a] > 1e-6 * size:
+                ctx.count(f"moved:leader-of:{link['type']}")
+            tol = (1e-6 if link["type"] == "rotation" else 1e-9) * scale
+            if err > tol:
+                ctx.violation(f"link-relation-broken:{link['type']}:leader={clamp_of[a]['type']}",
+                              f"{desc}: {link} leader {a} went {_fmt(before[a])} -> {_fmt(after[a])}, follower {b} went {_fmt(before[b])} -> "
+                              f"{_fmt(after[b])} but the relation puts it at {_fmt(want)} (off by {err:.3e})")
+
+        # ---- (6) rolled back / skipped steps restore the state; never-accepted clamps stay where they were ------------------------
+        tol_r = 1e-12 * scale
+        for s in mon.steps:
+            if not (s["rolled"] or s["skipped"]):
+                continue
+            path = "skip" if s["skipped"] else "rollback"
+            ctx.count(f"judged:step-restored:{path}")
+            d = np.linalg.norm(s["after"] - s["before"], axis=1)
+            bad = [int(i) for i in np.nonzero(d > tol_r)[0]]
+            # tolerated alternative for the step's own vertex and its followers: the snapped start state
+            bad = [i for i in bad if not ((i == s["node"] or (i in followers and followers[i][1] == s["node"]))
+                                          and np.linalg.norm(s["after"][i] - s0[i]) <= 1e-9 * scale)]
+            if bad:
+                i = bad[0]
+                who = "own-vertex" if i == s["node"] else ("follower" if i in followers else "other-vertex")
+                spec = clamp_of.get(s["node"], {"type": "?"})
+                ctx.violation(
+                    f"{path}-does-not-restore:{kind}:{spec['type']}:{who}" + (":injected" if s["fired"] else ""),
+                    f"{desc}: step {s['index']} (clamp {spec['type']} at vertex {s['node']}) was {'skipped after ' + ('an injected' if s['fired'] else 'a') + ' degenerate-cell error' if s['skipped'] else 'rolled back'}"
+                    f" but vertex {i} is at {_fmt(s['after'][i])}, before the step it was at {_fmt(s['before'][i])} (|d| = {d[i]:.3e}); "
+                    f"failpoint={fp}")
+                break
+        by_clamp = {}
+        for s in mon.steps:
+            by_clamp.setdefault(s["node"], []).append(s)
+        for v, steps in by_clamp.items():
+            if v is None or v not in clamp_of or not all(s["rolled"] or s["skipped"] for s in steps):
+                continue
+            ctx.count("judged:never-accepted-clamp-in-place")
+            d = float(np.linalg.norm(after[v] - s0[v]))
+            if d > 1e-9 * scale + (1.5e-7 if v in auto_vs else 0.0):  # an auto clamp's own snap (< TOL) is not observable
+                ctx.violation(f"never-accepted-clamp-displaced:{kind}:{clamp_of[v]['type']}",
+                              f"{desc}: every step of the {clamp_of[v]['type']} clamp at vertex {v} was rolled back or skipped "
+                              f"({[('skip' if s['skipped'] else 'rollback') for s in steps]}) but the vertex ended at {_fmt(after[v])}, "
+                              f"{d:.3e} away from where it was ({_fmt(s0[v])})")
+        return True
+
+    for call in range(ncalls):
+        if not one_call(call, call == ncalls - 1):
             break
-
-    # ---- (3) quality no worse ----------------------------------------------------------------------------------------
-    try:
-        with contextlib.redirect_stdout(sink):
-            q_after = float(grid_cls(np.array(after[inv] if kind == "mesh" else after), addressing).quality)
-    except ValueError as err:
-        q_after = None
-        ctx.violation(f"degenerate-after:{kind}", f"{desc}: quality before {q_before}, after optimize() the grid is degenerate: {err}")
-    if q_after is not None:
-        ctx.count(f"judged:quality:{kind}")
-        ref = max(q_before, q_s0)
-        if q_after > ref * (1 + 1e-9) + 1e-9:
-            worst = max((s for s in mon.steps if s["q0"] is not None and s["q1"] is not None), key=lambda s: s["q1"] - s["q0"],
-                        default=None)
-            ctx.violation(
-                f"quality-worse:{kind}:links={'+'.join(ltypes) or 'none'}",
-                f"{desc}: summed quality {q_before!r} before (with clamped vertices snapped by <= {snap:.1e}: {q_s0!r}), {q_after!r} "
-                f"after optimize(); steps: {[(s['node'], 'skip' if s['skipped'] else 'rollback' if s['rolled'] else 'accept', s['q0'], s['q1']) for s in mon.steps][:8]}"
-                + (f"; worst step: clamp at vertex {worst['node']} {worst['q0']} -> {worst['q1']}" if worst else ""))
-        if q_after < q_before:
-            ctx.count("improved")
-
-    # ---- (4) clamped vertices on their manifold, inside their bounds -----------------------------------------------------
-    for v, spec in clamp_of.items():
-        t = spec["type"]
-        dist, exc, cls = M.manifold_check(spec, after[v])
-        ctx.count(f"judged:manifold:{t}")
-        if moved[v] > 1e-6 * size:
-            ctx.count(f"moved:{t}")
-            ctx.count("moved:clamp")
-        tol = (1e-6 if cls == "sampled" else 1e-7) * size
-        if dist > tol:
-            ctx.violation(f"off-manifold:{t}", f"{desc}: vertex {v} clamped by {spec} started at {_fmt(before[v])} and ended at "
-                          f"{_fmt(after[v])}, {dist:.3e} off its manifold (tolerance {tol:.1e})")
-        elif exc > 1e-9 * max(1.0, size):
-            ctx.violation(f"out-of-bounds:{t}", f"{desc}: vertex {v} clamped by {spec} ended at {_fmt(after[v])}, outside the bounds "
-                          f"by {exc:.3e} (parameter units)")
-
-    # ---- (5) followers keep their relation ---------------------------------------------------------------------------------
-    for b, (link, a) in followers.items():
-        want = M.link_expected(link, before[a], before[b], after[a])
-        err = float(np.linalg.norm(after[b] - want))
-        ctx.count(f"judged:link:{link['type']}")
-        if moved[a] > 1e-6 * size:
-            ctx.count(f"moved:leader-of:{link['type']}")
-        tol = (1e-6 if link["type"] == "rotation" else 1e-9) * scale
-        if err > tol:
-            ctx.violation(f"link-relation-broken:{link['type']}:leader={clamp_of[a]['type']}",
-                          f"{desc}: {link} leader {a} went {_fmt(before[a])} -> {_fmt(after[a])}, follower {b} went {_fmt(before[b])} -> "
-                          f"{_fmt(after[b])} but the relation puts it at {_fmt(want)} (off by {err:.3e})")
-
-    # ---- (6) rolled back / skipped steps restore the state; never-accepted clamps stay where they were ------------------------
-    tol_r = 1e-12 * scale
-    for s in mon.steps:
-        if not (s["rolled"] or s["skipped"]):
-            continue
-        path = "skip" if s["skipped"] else "rollback"
-        ctx.count(f"judged:step-restored:{path}")
-        d = np.linalg.norm(s["after"] - s["before"], axis=1)
-        bad = [int(i) for i in np.nonzero(d > tol_r)[0]]
-        # tolerated alternative for the step's own vertex and its followers: the snapped start state
-        bad = [i for i in bad if not ((i == s["node"] or (i in followers and followers[i][1] == s["node"]))
-                                      and np.linalg.norm(s["after"][i] - s0[i]) <= 1e-9 * scale)]
-        if bad:
-            i = bad[0]
-            who = "own-vertex" if i == s["node"] else ("follower" if i in followers else "other-vertex")
-            spec = clamp_of.get(s["node"], {"type": "?"})
-            ctx.violation(
-                f"{path}-does-not-restore:{kind}:{spec['type']}:{who}" + (":injected" if s["fired"] else ""),
-                f"{desc}: step {s['index']} (clamp {spec['type']} at vertex {s['node']}) was {'skipped after ' + ('an injected' if s['fired'] else 'a') + ' degenerate-cell error' if s['skipped'] else 'rolled back'}"
-                f" but vertex {i} is at {_fmt(s['after'][i])}, before the step it was at {_fmt(s['before'][i])} (|d| = {d[i]:.3e}); "
-                f"failpoint={fp}")
-            break
-    by_clamp = {}
-    for s in mon.steps:
-        by_clamp.setdefault(s["node"], []).append(s)
-    for v, steps in by_clamp.items():
-        if v is None or v not in clamp_of or not all(s["rolled"] or s["skipped"] for s in steps):
-            continue
-        ctx.count("judged:never-accepted-clamp-in-place")
-        d = float(np.linalg.norm(after[v] - s0[v]))
-        if d > 1e-9 * scale:
-            ctx.violation(f"never-accepted-clamp-displaced:{kind}:{clamp_of[v]['type']}",
-                          f"{desc}: every step of the {clamp_of[v]['type']} clamp at vertex {v} was rolled back or skipped "
-                          f"({[('skip' if s['skipped'] else 'rollback') for s in steps]}) but the vertex ended at {_fmt(after[v])}, "
-                          f"{d:.3e} away from where it was ({_fmt(s0[v])})")
